@@ -123,6 +123,7 @@ fn op_case() -> impl Strategy<Value = OpCase> {
                 5 if !a.is_zero() => &max / &a,                                  // a * b just below / at max
                 _ => b0,
             };
+            let b = if b > max { max.clone() } else { b };
             let op = if op >= 100 && w != 64 { op % OPS.len() } else { op };
             OpCase { width: w, op, a, b, s }
         })
@@ -137,7 +138,7 @@ fn build_tables() -> Result<Tables, String> {
     let mut bc = vec![];
     for w in WIDTHS {
         let src = table_source(w);
-        let r = with_fastc(300, |fc| {
+        let r = with_fastc(80, |fc| {
             let o0 = fc.compile(&src, OptLevel::Opt0).map(|c| c.bytecode);
             let o1 = fc.compile(&src, OptLevel::Opt1).map(|c| c.bytecode);
             (o0, o1)
